@@ -85,6 +85,9 @@ def alias_cases():
         if kind == "l": N = {"p": "src2/p", "k": "l", "target": "nowhere"}
         extra_ = [F("src2/p/inner", 5, 3)] if kind == "d" else []
         add("bystander-behind-link-%s" % kind, base + [D("src2"), N] + extra_ + [D("dst"), D("dst/src2"), L("dst/src2/p", "../../other/keep")], ["src2", "dst"], ["other/keep"], True)
+    # ... and a link in the destination that leads nowhere: a file copied "through" it would be created at a place nothing maps onto
+    add("dangling-link-at-file-destination", base + [D("src2"), F("src2/p", 40, 91), D("dst"), D("dst/src2"), L("dst/src2/p", "../../other/not-there")], ["src2", "dst"], ["other/keep"], True)
+    add("dangling-link-at-file-destination-T", base + [F("p", 40, 92), D("dst"), L("dst/q", "@ROOT@/other/not-there")], ["-T", "p", "dst/q"], ["other/keep"], True)
     # a top-level source that is a link to a directory is copied as a link; what the link's text happens to designate inside the
     # destination (dst/real) is a bystander and must not receive the directory's children
     add("bystander-named-like-toplevel-dirlink-target", base + [D("real"), F("real/f", 30, 21), L("ld", "real"), D("dst"), D("dst/real"), F("dst/real/f", 40, 22)],
